@@ -593,6 +593,43 @@ func (r *Run) staleCellIndex(fns []*Func) {
 			})
 		}
 	}
+	// functions whose result is computed from the origin
+	originFns := map[*types.Func]bool{}
+	for changed := true; changed; {
+		changed = false
+		for _, fn := range fns {
+			if originFns[fn.Obj] || fn.Obj.Type().(*types.Signature).Results().Len() == 0 {
+				continue
+			}
+			hit := false
+			ast.Inspect(fn.Body, func(nd ast.Node) bool {
+				rs, ok := nd.(*ast.ReturnStmt)
+				if !ok {
+					return true
+				}
+				for _, res := range rs.Results {
+					ast.Inspect(res, func(m ast.Node) bool {
+						if se, ok := m.(*ast.SelectorExpr); ok && se.Sel.Name == "Min" {
+							if v, ok := fn.Info().Uses[se.Sel].(*types.Var); ok && v.IsField() {
+								hit = true
+							}
+						}
+						if call, ok := m.(*ast.CallExpr); ok {
+							if f, ok := calleeObjRaw(fn.Info(), call).(*types.Func); ok && originFns[f] {
+								hit = true
+							}
+						}
+						return true
+					})
+				}
+				return true
+			})
+			if hit {
+				originFns[fn.Obj] = true
+				changed = true
+			}
+		}
+	}
 	n := 0
 	for _, fn := range fns {
 		if fn.Recv == nil {
@@ -620,6 +657,12 @@ func (r *Run) staleCellIndex(fns []*Func) {
 			ast.Inspect(x, func(nd ast.Node) bool {
 				if se, ok := nd.(*ast.SelectorExpr); ok && se.Sel.Name == "Min" {
 					if v, ok := info.Uses[se.Sel].(*types.Var); ok && v.IsField() {
+						hit = true
+					}
+				}
+				// a helper of the package that returns something computed from the origin (cellRectOf, cellIndex)
+				if call, ok := nd.(*ast.CallExpr); ok {
+					if f, ok := calleeObjRaw(info, call).(*types.Func); ok && originFns[f] {
 						hit = true
 					}
 				}
@@ -670,6 +713,38 @@ func (r *Run) staleCellIndex(fns []*Func) {
 					}
 					for _, l := range ev.Lhs {
 						staleUse(l, ev.Pos)
+					}
+					// a cell coordinate kept in state (a field, a map or slice element that is not a local) outlives the
+					// call — and the origin it is relative to moves when the grid grows
+					for k, l := range ev.Lhs {
+						if k >= len(ev.Rhs) && len(ev.Rhs) != 1 {
+							continue
+						}
+						if _, isID := ast.Unparen(l).(*ast.Ident); isID {
+							continue // a local or a by-value parameter
+						}
+						lc := r.P.Canon(ev.Fn, l)
+						if !(strings.HasPrefix(lc, "recv.") || strings.HasPrefix(lc, "param:")) || strings.Contains(lc, ".Min") || strings.Contains(lc, ".Max") || gridCell(l) >= 0 {
+							continue
+						}
+						rh := ev.Rhs[0]
+						if k < len(ev.Rhs) {
+							rh = ev.Rhs[k]
+						}
+						kept := mentionsOrigin(rh)
+						ast.Inspect(rh, func(m ast.Node) bool {
+							if id, ok := m.(*ast.Ident); ok {
+								if _, ok := born[info.Uses[id]]; ok {
+									kept = true
+								}
+							}
+							return true
+						})
+						if kept {
+							n++
+							r.CheckT("Q7", fn.Name+":cell-coordinate-kept-in-state["+lc+"]", false, ev.Pos, path,
+								"a cell coordinate (computed relative to the grid's origin) is stored in %s and so outlives this call; the origin moves when the grid grows towards negative x or z, and the stored coordinate then addresses other cells than the ones the plane covers", lc)
+						}
 					}
 					if len(ev.Lhs) == len(ev.Rhs) {
 						for k, l := range ev.Lhs {
